@@ -104,10 +104,11 @@ for _k, _kn in enumerate(["uuid", "title", "author", "language", "date"]):
                "uuid_new, time, localtime": "stubs"},
       min_obligations=10, timeout=300, cost=30, assumptions=[NOFAIL, "configuration -DI18N_DISABLED"])
 
-for _kn in ("language", "title", "css", "author", "xyz"):
-    U("taint_html_head_" + _kn, ["C08", "C20"], "h_head", ["C08/taint_head.c"], ["html.c"], plain=True, lib=(), kind="bounded",
+for _kn in ("language", "title", "css", "author", "xyz", "latexauthor", "htmlauthor", "mmdnote"):
+    _emit = _kn in ("title", "author", "xyz", "latexauthor", "htmlauthor", "mmdnote")
+    U("taint_html_head_" + _kn, (["C08", "C20", "C11"] if _emit else ["C08", "C20"]), "h_head", ["C08/taint_head.c"], ["html.c"], plain=True, lib=(), kind="bounded",
       drop_bodies=["mmd_print_string_html", "mmd_print_char_html"],
-      defines=["-DI18N_DISABLED=1", '-DHEAD_KEY="%s"' % _kn], cbmc_flags=["--unwind", "40", "--unwindset", "d_string_append_printf.0:62", "--unwinding-assertions", "--object-bits", "12"],
+      defines=["-DI18N_DISABLED=1", '-DHEAD_KEY="%s"' % _kn] + (["-DHEAD_EXPECT_EMIT"] if _emit else []), cbmc_flags=["--unwind", "40", "--unwindset", "d_string_append_printf.0:62", "--unwinding-assertions", "--object-bits", "12"],
       bounds={"metadata": "the one key '%s'" % _kn, "value": "any (2 bytes; the obligations do not depend on content)"},
       functions=["mmd_start_complete_html"],
       callees={"d_string_append*": "contract stubs: requires the text is not the metadata value", "mmd_print_string_html / mmd_print_char_html": "contract stubs: sanitiser, requires obfuscate == false",
